@@ -11,7 +11,8 @@ namespace Props
 namespace C11
 open Agent Bp
 
-/-- Constants of the source the model relies on: block type codes of the hop-by-hop blocks. -/
+/-- Constants of the source the model relies on: block type codes of the hop-by-hop blocks,
+    the transmit chain. -/
 theorem C11_facts :
     ("CanonicalBlock", "PreviousNodeBlock", "bind_type", (typePrevNode : Int)) ∈ Facts.binds
     ∧ ("CanonicalBlock", "BundleAgeBlock", "bind_type", (typeAge : Int)) ∈ Facts.binds
@@ -26,6 +27,17 @@ theorem C11_tx_is_fwdOut (cfg : Cfg) (st : St) (now : Nat) (sp : SendParams) (c0
     ∃ b, fwdOut cfg { st with fwdQ := q } now sp c0 = some b ∧ d = b.enc :=
   doFwd_tx cfg st now sp c0 q hq d hd
 
+/-- The hop-by-hop edits never fail (block numbers are drawn fresh): a bundle routed forward is
+    handed to the convergence layer whenever a transmit route matches, its CL is attached and
+    the fragment step does not take the bundle over. -/
+theorem C11_forward_is_sent (cfg : Cfg) (st : St) (now : Nat) (sp : SendParams) (c0 : Ctr)
+    (hr : sp.txBits.any id = true) (hcl : sp.clOk = true)
+    (hf : sp.frag = .none ∨ sp.frag = .raises) : ∃ b, fwdOut cfg st now sp c0 = some b := by
+  have hok := (fwdEdit_stages cfg st now c0).1
+  unfold fwdOut
+  simp only [hok, if_true, sendBundle, sendRes, hr, hcl]
+  rcases hf with h | h <;> simp [h]
+
 /-! ### primary block -/
 
 /-- the primary block fields named by the property (and the CRC type and fragment fields) -/
@@ -34,14 +46,16 @@ def primaryFieldsEq (p q : Primary) : Prop :=
   ∧ p.ts = q.ts ∧ p.lifetime = q.lifetime ∧ p.crcType = q.crcType ∧ p.fragOff = q.fragOff
   ∧ p.totalLen = q.totalLen
 
-/-- Full statement (received bundles: source and report-to present). -/
+/-- Full statement (received bundles: the source is always present). -/
 def PrimaryUnchanged : Prop :=
   ∀ (cfg : Cfg) (st : St) (now : Nat) (sp : SendParams) (c0 : Ctr) (b : Bundle),
-    c0.srcNone = false → c0.rptNone = false →
+    c0.srcNone = false →
     fwdOut cfg st now sp c0 = some b → primaryFieldsEq b.primary c0.primary
 
-/-- **Holds when creation time and lifetime are non-zero.** Missing part: a creation time of 0
-    is replaced by a fresh timestamp and a lifetime of 0 by one hour (D11). -/
+/-- **Holds when creation time and lifetime are non-zero and the report-to is present.**
+    Missing part (D11): `_apply_primary` runs on forwarded bundles too — a creation time of 0 is
+    replaced by a fresh timestamp, a lifetime of 0 by one hour, and an absent (CBOR null)
+    report-to by this node's EID when a report is requested. -/
 theorem C11_primary_unchanged_partial (cfg : Cfg) (st : St) (now : Nat) (sp : SendParams) (c0 : Ctr)
     (b : Bundle) (hs : c0.srcNone = false) (hr : c0.rptNone = false)
     (hts : c0.primary.ts.time ≠ 0) (hlt : c0.primary.lifetime ≠ 0)
@@ -53,7 +67,7 @@ theorem C11_primary_unchanged_partial (cfg : Cfg) (st : St) (now : Nat) (sp : Se
   simp only [Ctr.wire, primaryFieldsEq, this, hp]
   simp
 
-/-- witnesses shared with the harness (harness/props/c11.py `w_d11`, `w_life0`) -/
+/-- witnesses shared with the harness (harness/props/c11.py `w_d11`, `w_life0`, …) -/
 def wCfg : Cfg := { nodeId := .dtn [47, 47, 110, 111, 100, 101, 47], rxRoutes := [.forward] }
 def wSp : SendParams := { txBits := [true] }
 def wPay : Blk := { c := { typeCode := 1, blockNum := 1, btsd := some [1, 2, 3] } }
@@ -64,6 +78,8 @@ def wD11 : Ctr :=
   { primary := wPri 0 7 60000,
     blocks := [{ c := { typeCode := 7, blockNum := 2, btsd := some (encBundleAge 5) } }, wPay] }
 def wLife0 : Ctr := { primary := wPri 5000 0 0, blocks := [wPay] }
+def wNullRpt : Ctr :=
+  { primary := { wPri 5000 0 60000 with flags := 0x10000 }, rptNone := true, blocks := [wPay] }
 
 /-- **The code violates the full statement (D11)**: a received creation time `[0, 7]` leaves
     as `[now, 0]` (new identity) and the age block is dropped. -/
@@ -73,310 +89,215 @@ theorem C11_primary_unchanged_counterexample : ¬ PrimaryUnchanged := by
       ∧ b.blocks.map (·.typeCode) = [6, 1] := by
     refine ⟨_, rfl, ?_, ?_⟩ <;> decide
   obtain ⟨b, hb, hts, _⟩ := hb
-  have := (h wCfg {} 9000 wSp wD11 b rfl rfl hb).2.2.2.2.2.1
+  have := (h wCfg {} 9000 wSp wD11 b rfl hb).2.2.2.2.2.1
   rw [hts] at this
   exact absurd this (by decide)
 
-/-- … and a lifetime of 0 leaves as 3 600 000 ms. -/
+/-- … a lifetime of 0 leaves as 3 600 000 ms … -/
 theorem C11_lifetime_zero_counterexample :
     ∃ b, fwdOut wCfg {} 9000 wSp wLife0 = some b ∧ b.primary.lifetime = 3600000
       ∧ wLife0.primary.lifetime = 0 := by
   refine ⟨_, rfl, ?_, rfl⟩; decide
 
+/-- … and an absent report-to (with a report requested) leaves as this node's EID. -/
+theorem C11_absent_report_to_counterexample :
+    ∃ b, fwdOut wCfg {} 9000 wSp wNullRpt = some b ∧ b.primary.rpt = wCfg.nodeId
+      ∧ wNullRpt.rptNone = true := by
+  refine ⟨_, rfl, ?_, rfl⟩; decide
+
 /-! ### blocks that are neither previous-node nor age blocks -/
 
-/-- Every received block that is not a (dissected) previous-node or age block is encoded with
-    its type, number, flags, CRC type, and the BTSD `wireBtsd` picks: the cached octets when
-    present. -/
+/-- Every received block whose type is neither 6 nor 7 is encoded with its type, number, flags,
+    CRC type, and the BTSD `wireBtsd` picks for it after the hop-count bump. -/
 theorem C11_other_blocks_kept (cfg : Cfg) (st : St) (now : Nat) (sp : SendParams) (c0 : Ctr) (b : Bundle)
     (hnd : c0.nums.Nodup) (h : fwdOut cfg st now sp c0 = some b) (x : Blk) (hx : x ∈ c0.blocks)
-    (h6 : x.cls ≠ .prev) (h7 : x.cls ≠ .age) : ∃ y ∈ b.blocks, wireOf (bumpHop x) y := by
-  obtain ⟨hok, rfl⟩ := fwdOut_some _ _ _ _ _ _ h
-  obtain ⟨S⟩ := fwdEdit_stages cfg st now c0 hok
+    (h6 : x.c.typeCode ≠ typePrevNode) (h7 : x.c.typeCode ≠ typeAge) :
+    ∃ y ∈ b.blocks, wireOf (bumpHop x) y := by
+  obtain ⟨_, rfl⟩ := fwdOut_some _ _ _ _ _ _ h
+  obtain ⟨S⟩ := (fwdEdit_stages cfg st now c0).2
   have := S.keep hnd x hx h6 h7
   simp only [Ctr.wire, applyPrimary_blocks]
   exact finalBlocks_of_mem _ _ _ this
 
-/-- Full statement: the payload block leaves with the octets it arrived with. -/
-def PayloadUnchanged : Prop :=
-  ∀ (cfg : Cfg) (st : St) (now : Nat) (sp : SendParams) (c0 : Ctr) (b : Bundle),
-    c0.nums.Nodup → fwdOut cfg st now sp c0 = some b →
-    ∀ x ∈ c0.blocks, x.c.typeCode = typePayload → ∀ d, x.c.btsd = some d →
-      ∃ y ∈ b.blocks, y.typeCode = typePayload ∧ y.blockNum = x.num ∧ y.btsd = some d
-
-/-- **Holds for payloads that are not dissected as an administrative record**
-    (`adminReenc = none`). Missing part: with the administrative-record flag set the payload is
-    re-encoded from the parsed record on every build (`Bundle._update_from_admin`). -/
-theorem C11_payload_unchanged_partial (cfg : Cfg) (st : St) (now : Nat) (sp : SendParams) (c0 : Ctr)
+/-- **Payload unchanged.** The payload block leaves with the octets it arrived with (whatever
+    the administrative-record flag says: a cached BTSD is never re-encoded). -/
+theorem C11_payload_unchanged (cfg : Cfg) (st : St) (now : Nat) (sp : SendParams) (c0 : Ctr)
     (b : Bundle) (hnd : c0.nums.Nodup) (h : fwdOut cfg st now sp c0 = some b)
     (x : Blk) (hx : x ∈ c0.blocks) (ht : x.c.typeCode = typePayload) (d : Bytes)
-    (hd : x.c.btsd = some d) (hadm : x.adminReenc = none) :
+    (hd : x.c.btsd = some d) :
     ∃ y ∈ b.blocks, y.typeCode = typePayload ∧ y.blockNum = x.num ∧ y.btsd = some d := by
-  have hc : x.cls = .other := by
-    simp only [Blk.cls, ht, typePayload, typePrevNode, typeAge, typeHop]
-    cases x.parsed <;> simp
+  have hnh : x.isHop = false := by simp [Blk.isHop, ht, typePayload, typeHop]
   obtain ⟨y, hy, h1, h2, _, _, h5⟩ :=
-    C11_other_blocks_kept cfg st now sp c0 b hnd h x hx (by rw [hc]; decide) (by rw [hc]; decide)
-  refine ⟨y, hy, ?_, ?_, ?_⟩
-  · rw [h1, (bumpHop_c x).1, ht]
-  · rw [h2, (bumpHop_c x).1]; rfl
-  · rw [h5]
-    simp [Blk.wireBtsd, (bumpHop_c x).1, (bumpHop_c x).2.1, hadm, hd]
+    C11_other_blocks_kept cfg st now sp c0 b hnd h x hx (by rw [ht]; decide) (by rw [ht]; decide)
+  rw [bumpHop_not_hop x hnh] at h1 h2 h5
+  refine ⟨y, hy, by rw [h1, ht], by rw [h2]; rfl, ?_⟩
+  rw [h5]
+  simp [Blk.wireBtsd, hd]
 
-/-- witness (harness `w_adminnc`): an admin-flagged bundle whose status report
-    `[1, [[[true],[false],[false],[false]], 6, dtn://o/, [1, 2]]]` carries the reason code in the
-    non-shortest form `18 06`; dissection + rebuild yields the shortest form `06` -/
-def wRecHead : Bytes := [0x82, 0x01, 0x84, 0x84, 0x81, 0xf5, 0x81, 0xf4, 0x81, 0xf4, 0x81, 0xf4]
-def wRecTail : Bytes := [0x82, 0x01, 0x64, 0x2f, 0x2f, 0x6f, 0x2f, 0x82, 0x01, 0x02]
-def wAdminBlk : Blk :=
-  { c := { typeCode := 1, blockNum := 1, btsd := some (wRecHead ++ [0x18, 0x06] ++ wRecTail) },
-    adminReenc := some (wRecHead ++ [0x06] ++ wRecTail) }
-def wAdmin : Ctr := { primary := { wPri 5000 0 60000 with flags := 2 }, blocks := [wAdminBlk] }
-
-/-- **The code violates the full statement** for administrative-record payloads. -/
-theorem C11_payload_unchanged_counterexample : ¬ PayloadUnchanged := by
-  intro h
-  have hb : ∃ b, fwdOut wCfg {} 9000 wSp wAdmin = some b
-      ∧ ¬ ∃ y ∈ b.blocks, y.typeCode = typePayload ∧ y.blockNum = 1 ∧ y.btsd = some (wRecHead ++ [0x18, 0x06] ++ wRecTail) := by
-    refine ⟨_, rfl, ?_⟩; decide
-  obtain ⟨b, hb, hn⟩ := hb
-  exact hn (h wCfg {} 9000 wSp wAdmin b (by decide) hb wAdminBlk (by simp [wAdmin]) rfl _ rfl)
+/-- the same holds for every other extension block that is not a dissected hop-count block -/
+theorem C11_extension_unchanged (cfg : Cfg) (st : St) (now : Nat) (sp : SendParams) (c0 : Ctr)
+    (b : Bundle) (hnd : c0.nums.Nodup) (h : fwdOut cfg st now sp c0 = some b)
+    (x : Blk) (hx : x ∈ c0.blocks) (h6 : x.c.typeCode ≠ typePrevNode) (h7 : x.c.typeCode ≠ typeAge)
+    (hnh : x.isHop = false) (d : Bytes) (hd : x.c.btsd = some d) :
+    ∃ y ∈ b.blocks, y.typeCode = x.c.typeCode ∧ y.blockNum = x.num ∧ y.flags = x.c.flags
+      ∧ y.crcType = x.c.crcType ∧ y.btsd = some d := by
+  obtain ⟨y, hy, h1, h2, h3, h4, h5⟩ := C11_other_blocks_kept cfg st now sp c0 b hnd h x hx h6 h7
+  rw [bumpHop_not_hop x hnh] at h1 h2 h3 h4 h5
+  exact ⟨y, hy, h1, h2, h3, h4, by rw [h5]; simp [Blk.wireBtsd, hd]⟩
 
 /-! ### hop count, in the encoded BTSD -/
 
-/-- Full statement: every hop-count block leaves with its count one greater, in the BTSD
-    octets that are encoded. -/
-def HopPlusOne : Prop :=
-  ∀ (cfg : Cfg) (st : St) (now : Nat) (sp : SendParams) (c0 : Ctr) (b : Bundle),
-    c0.nums.Nodup → fwdOut cfg st now sp c0 = some b →
-    ∀ x ∈ c0.blocks, x.c.typeCode = typeHop → x.parsed = true → ∀ l c,
-      x.c.btsd = some (encHopCount l c) → x.hop = some (l, c) →
-      ∃ y ∈ b.blocks, y.typeCode = typeHop ∧ y.blockNum = x.num ∧ y.btsd = some (encHopCount l (c + 1))
-
-/-- What the code does (D10): the count is bumped in memory only; the cached BTSD octets of a
-    received hop-count block are what is encoded — the received count, not count + 1. -/
-theorem C11_hop_bytes_stale (cfg : Cfg) (st : St) (now : Nat) (sp : SendParams) (c0 : Ctr) (b : Bundle)
+/-- **Hop count + 1 in the bytes.** Every dissected hop-count block (`x.hop = some (l, c)` is
+    what dissection of its BTSD gave) leaves with the same number and with BTSD
+    `[l, c + 1]`: the cached octets are dropped after the bump, so the encoder regenerates them. -/
+theorem C11_hop_plus_one (cfg : Cfg) (st : St) (now : Nat) (sp : SendParams) (c0 : Ctr) (b : Bundle)
     (hnd : c0.nums.Nodup) (h : fwdOut cfg st now sp c0 = some b)
     (x : Blk) (hx : x ∈ c0.blocks) (ht : x.c.typeCode = typeHop) (hp : x.parsed = true)
-    (d : Bytes) (hd : x.c.btsd = some d) (hadm : x.adminReenc = none) :
-    ∃ y ∈ b.blocks, y.typeCode = typeHop ∧ y.blockNum = x.num ∧ y.btsd = some d := by
-  have hc := hop_cls x ht hp
-  obtain ⟨y, hy, h1, h2, _, _, h5⟩ :=
-    C11_other_blocks_kept cfg st now sp c0 b hnd h x hx (by rw [hc]; decide) (by rw [hc]; decide)
-  refine ⟨y, hy, ?_, ?_, ?_⟩
-  · rw [h1, (bumpHop_c x).1, ht]
-  · rw [h2, (bumpHop_c x).1]; rfl
-  · rw [h5]
-    simp [Blk.wireBtsd, (bumpHop_c x).1, (bumpHop_c x).2.1, hadm, hd]
-
-/-- **Holds when the BTSD cache is absent** (`fields['btsd']` unset, so
-    `ensure_block_type_specific_data` regenerates it from the in-memory payload): then the
-    encoded count is count + 1. Missing part: received blocks always carry the cache — the
-    excluded region is every received hop-count block, see the counterexample. -/
-theorem C11_hop_plus_one_partial (cfg : Cfg) (st : St) (now : Nat) (sp : SendParams) (c0 : Ctr) (b : Bundle)
-    (hnd : c0.nums.Nodup) (h : fwdOut cfg st now sp c0 = some b)
-    (x : Blk) (hx : x ∈ c0.blocks) (ht : x.c.typeCode = typeHop) (hp : x.parsed = true)
-    (l c : Nat) (hcache : x.c.btsd = none) (hmem : x.hop = some (l, c)) (hadm : x.adminReenc = none) :
+    (l c : Nat) (hmem : x.hop = some (l, c)) (hadm : x.adminReenc = none) :
     ∃ y ∈ b.blocks, y.typeCode = typeHop ∧ y.blockNum = x.num ∧ y.btsd = some (encHopCount l (c + 1)) := by
-  have hc := hop_cls x ht hp
+  have hh : x.isHop = true := by simp [Blk.isHop, ht, hp]
   obtain ⟨y, hy, h1, h2, _, _, h5⟩ :=
-    C11_other_blocks_kept cfg st now sp c0 b hnd h x hx (by rw [hc]; decide) (by rw [hc]; decide)
+    C11_other_blocks_kept cfg st now sp c0 b hnd h x hx (by rw [ht]; decide) (by rw [ht]; decide)
   refine ⟨y, hy, ?_, ?_, ?_⟩
-  · rw [h1, (bumpHop_c x).1, ht]
-  · rw [h2, (bumpHop_c x).1]; rfl
+  · rw [h1, (bumpHop_keeps x).1, ht]
+  · rw [h2, (bumpHop_keeps x).2.1]; rfl
   · rw [h5]
-    simp [Blk.wireBtsd, bumpHop, hc, hadm, hcache, hmem]
+    simp [Blk.wireBtsd, bumpHop, hh, hadm, hmem]
 
 /-- witness shared with the harness (`w_d10`): hop-count block number 2, `[30, 4]` -/
 def wHopBlk : Blk :=
   { c := { typeCode := 10, blockNum := 2, btsd := some (encHopCount 30 4) }, hop := some (30, 4) }
 def wD10 : Ctr := { primary := wPri 5000 0 60000, blocks := [wHopBlk, wPay] }
 
-/-- **The code violates the full statement (D10)**: `[30, 4]` leaves as `[30, 4]`. -/
-theorem C11_hop_plus_one_counterexample : ¬ HopPlusOne := by
-  intro h
-  have hb : ∃ b, fwdOut wCfg {} 9000 wSp wD10 = some b
-      ∧ (¬ ∃ y ∈ b.blocks, y.typeCode = typeHop ∧ y.blockNum = 2 ∧ y.btsd = some (encHopCount 30 5))
-      ∧ ∃ y ∈ b.blocks, y.typeCode = typeHop ∧ y.blockNum = 2 ∧ y.btsd = some (encHopCount 30 4) := by
-    refine ⟨_, rfl, ?_, ?_⟩ <;> decide
-  obtain ⟨b, hb, hn, _⟩ := hb
-  exact hn (h wCfg {} 9000 wSp wD10 b (by decide) hb wHopBlk (by simp [wD10]) rfl rfl 30 4 rfl rfl)
+example : ∃ b, fwdOut wCfg {} 9000 wSp wD10 = some b
+    ∧ ∃ y ∈ b.blocks, y.typeCode = typeHop ∧ y.blockNum = 2 ∧ y.btsd = some (encHopCount 30 5) :=
+  ⟨_, rfl, by decide⟩
 
 /-! ### previous node -/
 
-/-- Full statement: exactly one previous-node block leaves, naming this node. -/
-def OnePrevNode : Prop :=
-  ∀ (cfg : Cfg) (st : St) (now : Nat) (sp : SendParams) (c0 : Ctr) (b : Bundle),
-    c0.nums.Nodup → fwdOut cfg st now sp c0 = some b →
-    (b.blocks.filter (isType typePrevNode)).length = 1
-    ∧ ∀ y ∈ b.blocks, y.typeCode = typePrevNode → y.btsd = some (encPrevNode cfg.nodeId)
-
-
-/-- **Holds when the received bundle carries at most one previous-node block and its BTSD
-    dissects.** Missing part: the removal loop iterates the list it shrinks (every other
-    dissected block survives) and never sees a type-6 block whose BTSD did not dissect. -/
-theorem C11_one_prev_node_partial (cfg : Cfg) (st : St) (now : Nat) (sp : SendParams) (c0 : Ctr)
-    (b : Bundle) (hnd : c0.nums.Nodup) (h : fwdOut cfg st now sp c0 = some b)
-    (hp : ∀ x ∈ c0.blocks, x.c.typeCode = typePrevNode → x.parsed = true)
-    (hl : (c0.clsNums .prev).length ≤ 1) :
+/-- **Exactly one previous-node block leaves, naming this node** — whatever type-6 blocks were
+    received (several, or with a BTSD that does not dissect). -/
+theorem C11_one_prev_node (cfg : Cfg) (st : St) (now : Nat) (sp : SendParams) (c0 : Ctr)
+    (b : Bundle) (hnd : c0.nums.Nodup) (h : fwdOut cfg st now sp c0 = some b) :
     (b.blocks.filter (isType typePrevNode)).length = 1
     ∧ ∀ y ∈ b.blocks, y.typeCode = typePrevNode → y.btsd = some (encPrevNode cfg.nodeId) := by
-  obtain ⟨hok, rfl⟩ := fwdOut_some _ _ _ _ _ _ h
-  obtain ⟨S⟩ := fwdEdit_stages cfg st now c0 hok
+  obtain ⟨_, rfl⟩ := fwdOut_some _ _ _ _ _ _ h
+  obtain ⟨S⟩ := (fwdEdit_stages cfg st now c0).2
   simp only [Ctr.wire, applyPrimary_blocks]
+  have hall : ∀ x ∈ (fwdEdit cfg st now c0).2.1.blocks, x.c.typeCode = typePrevNode →
+      x = newBlk typePrevNode S.n (encPrevNode cfg.nodeId) := by
+    intro x hx ht
+    rcases S.mem_out hnd x hx with rfl | ⟨_, m, rfl⟩ | ⟨x0, _, rfl, h6, _⟩
+    · rfl
+    · simp [newBlk, typeAge, typePrevNode] at ht
+    · rw [(bumpHop_keeps x0).1] at ht; exact absurd ht h6
   constructor
   · rw [count_types]
     apply filter_len_one _ _ (newBlk typePrevNode S.n (encPrevNode cfg.nodeId))
       (nodup_of_map _ _ (S.out_nodup hnd))
-    · intro x hx ht
-      exact (typed_blocks cfg st now c0 _ S hnd x hx).1 (by simpa using ht) hp hl
+    · intro x hx ht; exact hall x hx (by simpa using ht)
     · exact S.new6_mem hnd
     · simp [newBlk]
   · intro y hy ht
     obtain ⟨x, hx, h1, _, _, _, h5⟩ := mem_finalBlocks _ _ _ hy
-    have := (typed_blocks cfg st now c0 _ S hnd x hx).1 (by rw [← h1]; exact ht) hp hl
-    rw [h5, this]
+    rw [h5, hall x hx (by rw [← h1]; exact ht)]
     rfl
 
 def wDupPrev : Ctr :=
   { primary := wPri 5000 0 60000,
     blocks := [{ c := { typeCode := 6, blockNum := 2, btsd := some (encPrevNode (.dtn [47, 47, 112, 49, 47])) } },
                { c := { typeCode := 6, blockNum := 3, btsd := some (encPrevNode (.dtn [47, 47, 112, 50, 47])) } },
+               { c := { typeCode := 6, blockNum := 4, btsd := some [0x82, 0x01] }, parsed := false },
                wPay] }
 
-/-- **The code violates the full statement**: of two received previous-node blocks the second
-    survives next to the new one (harness witness `w_dupprev`). -/
-theorem C11_one_prev_node_counterexample : ¬ OnePrevNode := by
-  intro h
-  have hb : ∃ b, fwdOut wCfg {} 9000 wSp wDupPrev = some b
-      ∧ (b.blocks.filter (isType typePrevNode)).length = 2 := ⟨_, rfl, by decide⟩
-  obtain ⟨b, hb, hn⟩ := hb
-  have := (h wCfg {} 9000 wSp wDupPrev b (by decide) hb).1
-  omega
+-- two received previous-node blocks and one whose BTSD does not dissect: one leaves (harness `w_dupprev`)
+example : ∃ b, fwdOut wCfg {} 9000 wSp wDupPrev = some b
+    ∧ b.blocks.map (fun y => (y.typeCode, y.blockNum)) = [(6, 2), (7, 3), (1, 1)] := ⟨_, rfl, by decide⟩
 
 /-! ### bundle age -/
 
-/-- Full statement: at most one age block leaves; when the creation time is not 0 there is
-    exactly one and it carries `now - creation time`. -/
-def AgeAtMostOne : Prop :=
-  ∀ (cfg : Cfg) (st : St) (now : Nat) (sp : SendParams) (c0 : Ctr) (b : Bundle),
-    c0.nums.Nodup → fwdOut cfg st now sp c0 = some b → c0.primary.ts.time ≤ now →
-    (b.blocks.filter (isType typeAge)).length ≤ 1
-    ∧ (c0.primary.ts.time ≠ 0 →
-        ∃ y ∈ b.blocks, y.typeCode = typeAge ∧ y.btsd = some (encBundleAge (now - c0.primary.ts.time)))
-
-/-- **Holds when the received bundle carries at most one age block and its BTSD dissects**
-    (the node clock not behind the creation time). Missing part: as for previous-node blocks,
-    every other one of several age blocks survives; an undissected one is never removed. -/
-theorem C11_age_at_most_one_partial (cfg : Cfg) (st : St) (now : Nat) (sp : SendParams) (c0 : Ctr)
-    (b : Bundle) (hnd : c0.nums.Nodup) (h : fwdOut cfg st now sp c0 = some b)
-    (hnow : c0.primary.ts.time ≤ now)
-    (hp : ∀ x ∈ c0.blocks, x.c.typeCode = typeAge → x.parsed = true)
-    (hl : (c0.clsNums .age).length ≤ 1) :
-    (b.blocks.filter (isType typeAge)).length ≤ 1
-    ∧ (c0.primary.ts.time ≠ 0 →
-        ∃ y ∈ b.blocks, y.typeCode = typeAge ∧ y.btsd = some (encBundleAge (now - c0.primary.ts.time))) := by
-  obtain ⟨hok, rfl⟩ := fwdOut_some _ _ _ _ _ _ h
-  obtain ⟨S⟩ := fwdEdit_stages cfg st now c0 hok
+/-- **At most one age block leaves**; when the creation time is not 0 there is exactly one and it
+    carries `max(0, now - creation time)` (`Nat` subtraction). With creation time 0 none leaves
+    (D11: the received age block is dropped together with the rewritten timestamp). -/
+theorem C11_age_at_most_one (cfg : Cfg) (st : St) (now : Nat) (sp : SendParams) (c0 : Ctr)
+    (b : Bundle) (hnd : c0.nums.Nodup) (h : fwdOut cfg st now sp c0 = some b) :
+    (b.blocks.filter (isType typeAge)).length = (if c0.primary.ts.time = 0 then 0 else 1)
+    ∧ ∀ y ∈ b.blocks, y.typeCode = typeAge →
+        y.btsd = some (encBundleAge (now - c0.primary.ts.time)) := by
+  obtain ⟨_, rfl⟩ := fwdOut_some _ _ _ _ _ _ h
+  obtain ⟨S⟩ := (fwdEdit_stages cfg st now c0).2
   simp only [Ctr.wire, applyPrimary_blocks]
   have hall : ∀ x ∈ (fwdEdit cfg st now c0).2.1.blocks, x.c.typeCode = typeAge →
-      c0.primary.ts.time ≠ 0 ∧ ∃ m, x = newBlk typeAge m (encAge now c0.primary.ts.time) :=
-    fun x hx ht => (typed_blocks cfg st now c0 _ S hnd x hx).2 ht hp hl
-  have hndo := nodup_of_map _ _ (S.out_nodup hnd)
+      c0.primary.ts.time ≠ 0 ∧ ∃ m, x = newBlk typeAge m (encAge now c0.primary.ts.time) := by
+    intro x hx ht
+    rcases S.mem_out hnd x hx with rfl | ⟨hz, m, rfl⟩ | ⟨x0, _, rfl, _, h7⟩
+    · simp [newBlk, typeAge, typePrevNode] at ht
+    · exact ⟨hz, m, rfl⟩
+    · rw [(bumpHop_keeps x0).1] at ht; exact absurd ht h7
   constructor
   · rw [count_types]
-    -- all type-7 blocks are the new one: a duplicate-free list has it at most once
-    match hf : (fwdEdit cfg st now c0).2.1.blocks.filter (fun x => x.c.typeCode == typeAge) with
-    | [] => rw [hf]; simp
-    | [a] => rw [hf]; simp
-    | a1 :: a2 :: r =>
-      exfalso
-      have hm1 : a1 ∈ (fwdEdit cfg st now c0).2.1.blocks.filter (fun x => x.c.typeCode == typeAge) := by
-        rw [hf]; simp
-      have hm2 : a2 ∈ (fwdEdit cfg st now c0).2.1.blocks.filter (fun x => x.c.typeCode == typeAge) := by
-        rw [hf]; simp
-      rw [List.mem_filter] at hm1 hm2
-      obtain ⟨_, m1, e1⟩ := hall a1 hm1.1 (by simpa using hm1.2)
-      obtain ⟨_, m2, e2⟩ := hall a2 hm2.1 (by simpa using hm2.2)
-      have hnn : ((a1 :: a2 :: r).map Blk.num).Nodup := by
-        rw [← hf]
-        exact List.Nodup.sublist (List.Sublist.map _ List.filter_sublist) (S.out_nodup hnd)
-      have hnd2 : (a1 :: a2 :: r).Nodup := nodup_of_map _ _ hnn
-      -- the two blocks have different numbers, yet both are the block `add_block` inserted
-      rcases S.out_cases with ⟨hz, _⟩ | ⟨_, m, pre7, h5⟩
-      · exact (hall a1 hm1.1 (by simpa using hm1.2)).1 hz
-      · have hsrc : ∀ a, a ∈ (fwdEdit cfg st now c0).2.1.blocks → a.c.typeCode = typeAge →
-            a = newBlk typeAge m (encAge now c0.primary.ts.time) := by
-          intro a ha hta
-          rw [(addBlock_spec _ _ _ _ _ h5).2, mem_insertBeforeLast] at ha
-          rcases ha with rfl | ha
-          · rfl
-          · exfalso
-            -- a block of type 7 already in c4 would be an old dissected age block: all removed
-            have := removeCls_none S.c3 .age (S.c3_nodup hnd) (Nat.le_trans S.age_len hl) a ha
-            obtain ⟨_, m', e'⟩ := hall a (S.c4_sub_out a ha) hta
-            apply this
-            rw [e', newBlk_cls7]
-        have e1' := hsrc a1 hm1.1 (by simpa using hm1.2)
-        have e2' := hsrc a2 hm2.1 (by simpa using hm2.2)
-        simp only [List.nodup_cons, List.mem_cons, not_or] at hnd2
-        exact hnd2.1.1 (e1'.trans e2'.symm)
-  · intro hz
-    rcases S.out_cases with ⟨hz0, _⟩ | ⟨_, m, pre7, h5⟩
-    · exact absurd hz0 hz
-    · have hm : newBlk typeAge m (encAge now c0.primary.ts.time) ∈ (fwdEdit cfg st now c0).2.1.blocks := by
-        rw [(addBlock_spec _ _ _ _ _ h5).2, mem_insertBeforeLast]; exact Or.inl rfl
-      obtain ⟨y, hy, h1, _, _, _, h5'⟩ := finalBlocks_of_mem _ (takeCrc
-        (applyPrimary cfg (fwdEdit cfg st now c0).1 now (fwdEdit cfg st now c0).2.1).2.primary.crcType sp.crcs).2 _ hm
-      refine ⟨y, hy, by rw [h1]; rfl, ?_⟩
-      rw [h5']
-      simp [Blk.wireBtsd, newBlk, encAge, hnow]
+    rcases S.out_cases with ⟨hz, _⟩ | ⟨hz, m, h5⟩
+    · simp only [hz, if_true]
+      rw [List.length_eq_zero_iff, List.filter_eq_nil_iff]
+      intro x hx ht
+      exact (hall x hx (by simpa using ht)).1 hz
+    · simp only [hz, if_false]
+      apply filter_len_one _ _ (newBlk typeAge m (encAge now c0.primary.ts.time))
+        (nodup_of_map _ _ (S.out_nodup hnd))
+      · intro x hx ht
+        have ht' : x.c.typeCode = typeAge := by simpa using ht
+        rw [(addBlock_spec _ _ _ _ h5).2, mem_insertBeforeLast] at hx
+        rcases hx with rfl | hx
+        · rfl
+        · exact absurd ht' (removeType_none S.c3 typeAge (S.c3_nodup hnd) x hx)
+      · rw [(addBlock_spec _ _ _ _ h5).2, mem_insertBeforeLast]; exact Or.inl rfl
+      · simp [newBlk]
+  · intro y hy ht
+    obtain ⟨x, hx, h1, _, _, _, h5⟩ := mem_finalBlocks _ _ _ hy
+    obtain ⟨_, m, rfl⟩ := hall x hx (by rw [← h1]; exact ht)
+    rw [h5]
+    rfl
 
 def wDupAge : Ctr :=
   { primary := wPri 5000 0 60000,
     blocks := [{ c := { typeCode := 7, blockNum := 2, btsd := some (encBundleAge 5) } },
                { c := { typeCode := 7, blockNum := 3, btsd := some (encBundleAge 6) } }, wPay] }
+def wFuture : Ctr := { primary := wPri 10000 0 60000, blocks := [wPay] }
 
-/-- **The code violates the full statement**: of two received age blocks the second survives
-    next to the new one (harness witness `w_dupage`). -/
-theorem C11_age_at_most_one_counterexample : ¬ AgeAtMostOne := by
-  intro h
-  have hb : ∃ b, fwdOut wCfg {} 9000 wSp wDupAge = some b
-      ∧ (b.blocks.filter (isType typeAge)).length = 2 := ⟨_, rfl, by decide⟩
-  obtain ⟨b, hb, hn⟩ := hb
-  have := (h wCfg {} 9000 wSp wDupAge b (by decide) hb (by decide)).1
-  omega
+-- two received age blocks: one leaves, carrying 9000 - 5000 (harness `w_dupage`)
+example : ∃ b, fwdOut wCfg {} 9000 wSp wDupAge = some b
+    ∧ b.blocks.map (fun y => (y.typeCode, y.blockNum, y.btsd)) =
+        [(6, 4, some (encPrevNode wCfg.nodeId)), (7, 5, some (encBundleAge 4000)), (1, 1, some [1, 2, 3])] :=
+  ⟨_, rfl, by decide⟩
+-- creation time ahead of the node clock: age 0
+example : ∃ b, fwdOut wCfg {} 9000 wSp wFuture = some b
+    ∧ ∃ y ∈ b.blocks, y.typeCode = typeAge ∧ y.btsd = some (encBundleAge 0) := ⟨_, rfl, by decide⟩
 
 /-! ### numbering and order -/
 
 /-- **Block numbers stay unique and the payload stays last, numbered 1** (for a received bundle
     with unique block numbers — `BundleContainer` refuses any other — whose last block is the
-    payload block numbered 1). A clash of a sticky or drawn number makes `add_block` raise
-    instead (nothing is transmitted). -/
+    payload block numbered 1). -/
 theorem C11_blocknums_unique_payload_last (cfg : Cfg) (st : St) (now : Nat) (sp : SendParams)
     (c0 : Ctr) (b : Bundle) (hnd : c0.nums.Nodup) (h : fwdOut cfg st now sp c0 = some b) :
     (b.blocks.map (·.blockNum)).Nodup
     ∧ ∀ p, c0.blocks.getLast? = some p → p.c.typeCode = typePayload → p.num = 1 →
         ∃ y, b.blocks.getLast? = some y ∧ y.typeCode = typePayload ∧ y.blockNum = 1 := by
-  obtain ⟨hok, rfl⟩ := fwdOut_some _ _ _ _ _ _ h
-  obtain ⟨S⟩ := fwdEdit_stages cfg st now c0 hok
+  obtain ⟨_, rfl⟩ := fwdOut_some _ _ _ _ _ _ h
+  obtain ⟨S⟩ := (fwdEdit_stages cfg st now c0).2
   simp only [Ctr.wire, applyPrimary_blocks]
   constructor
   · rw [finalBlocks_nums]; exact S.out_nodup hnd
   · intro p hl ht hn
-    have hc : p.cls = .other := by
-      simp only [Blk.cls, ht, typePayload, typePrevNode, typeAge, typeHop]
-      cases p.parsed <;> simp
-    have := S.last hnd p hl (by rw [hc]; decide) (by rw [hc]; decide)
+    have := S.last hnd p hl (by rw [ht]; decide) (by rw [ht]; decide)
     obtain ⟨y, hy, h1, h2, _⟩ := finalBlocks_getLast _ (takeCrc
       (applyPrimary cfg (fwdEdit cfg st now c0).1 now (fwdEdit cfg st now c0).2.1).2.primary.crcType sp.crcs).2 _ this
     refine ⟨y, hy, ?_, ?_⟩
-    · rw [h1, (bumpHop_c p).1, ht]
-    · rw [h2, (bumpHop_c p).1]; exact hn
+    · rw [h1, (bumpHop_keeps p).1, ht]
+    · rw [h2, (bumpHop_keeps p).2.1]; exact hn
 
--- the D10 witness meets the hypotheses of every `_partial` theorem except the hop-count one
-example : wD10.nums.Nodup ∧ (wD10.clsNums .prev).length ≤ 1 ∧ (wD10.clsNums .age).length ≤ 1
-    ∧ wD10.primary.ts.time ≠ 0 ∧ wD10.primary.lifetime ≠ 0 ∧ wD10.primary.ts.time ≤ 9000
+-- the D10 witness meets the hypotheses of the theorems above
+example : wD10.nums.Nodup ∧ wD10.primary.ts.time ≠ 0 ∧ wD10.primary.lifetime ≠ 0
     ∧ wD10.blocks.getLast? = some wPay := by decide
 
 example : ∃ b, fwdOut wCfg {} 9000 wSp wD10 = some b ∧ primaryFieldsEq b.primary wD10.primary :=
